@@ -32,7 +32,7 @@ TIERS = {
     "thorough": dict(pairs="Grid5", triples="Grid4"),
 }
 SCALARS = "Scalars3"
-MODEL_INVARIANTS = ["TypeOK", "Laws2", "Laws3", "RefusalRules"]
+MODEL_INVARIANTS = ["TypeOK", "Laws2", "Laws3", "RefusalRules", "NaryRefusalRules"]
 TRACE_CHUNK = 16000
 
 _SYS = None
@@ -311,6 +311,25 @@ def replay_triple(case):
     return case, problems, outside, r
 
 
+def replay_nary(case):
+    """add_cartesian_vectors / subtract_cartesian_vectors with 3 or 4 operands of arbitrary systems."""
+    from symplyphysics.core.vectors import arithmetics as ar
+    vs = [_vec(c, s) for c, s in zip(case["vs"], case["sys"])]
+    problems, outside = [], []
+    for op, fn, want in (("add", ar.add_cartesian_vectors, case["sum"]), ("sub", ar.subtract_cartesian_vectors, case["diff"])):
+        obs = _call(fn, *vs)
+        if obs[0] == "timeout":
+            outside.append(f"{op}: call timed out")
+        elif case["verdict"] == "refuse":
+            if obs[0] != "raised":
+                problems.append((op, f"model refuses the {len(vs)}-ary call (systems {case['sys']}), code returned {_show(obs)}"))
+        elif obs[0] == "raised":
+            problems.append((op, f"model accepts, code raised {obs[1]}"))
+        elif _ints(obs[1]) != want:
+            problems.append((op, f"components {list(obs[1].components)}, model {want}"))
+    return case, problems, outside, None
+
+
 # ---------------------------------------------------------------------------------------------------------
 # generic symbols: symbolic results evaluated on the grid against the model + expr_equals spot checks
 
@@ -414,30 +433,33 @@ def _pmap_pool(fn, cases):
 
 
 def _key(case, clause):
+    if case.get("nary"):
+        return f"n-ary operands={case['vs']} systems={case['sys']}: {clause}"
     if case.get("n") == 3:
         return f"triple a={case['a']} b={case['b']} c={case['c']}: {clause}"
     return f"pair a={case['a']} b={case['b']} systems=({case.get('sa', 1)},{case.get('sb', 1)}): {clause}"
 
 
-def _cfg(sc, name, grid, systems, nops, invariants):
+def _cfg(sc, name, grid, systems, nops, invariants, lens=(0, 1, 2, 3)):
     return write_cfg(sc / f"{name}.cfg", constants={"Grid": f"<-{grid}", "Systems": set(systems), "NOps": nops,
-                                                     "Scalars": f"<-{SCALARS}"}, invariants=invariants)
+                                                     "Scalars": f"<-{SCALARS}", "Lens": set(lens)}, invariants=invariants)
 
 
 def model_and_emit(run, sc, configs):
-    """Model-check and emit every configuration (label, grid, systems, nops); the TLC runs go side by side."""
-    def check(label, grid, systems, nops):
-        cfg = _cfg(sc, f"va_{label}", grid, systems, nops, MODEL_INVARIANTS)
+    """Model-check and emit every configuration (label, grid, systems, nops, lens, emit invariant); the TLC runs go
+    side by side."""
+    def check(label, grid, systems, nops, lens, _emit):
+        cfg = _cfg(sc, f"va_{label}", grid, systems, nops, MODEL_INVARIANTS, lens)
         return run_tlc("VecArith", cfg, sc, workers=4, coverage=True, allow_violation=False)
 
-    def emit(label, grid, systems, nops):
-        cfg2 = _cfg(sc, f"va_{label}_emit", grid, systems, nops, ["Emit"])
+    def emit(label, grid, systems, nops, lens, emit_inv):
+        cfg2 = _cfg(sc, f"va_{label}_emit", grid, systems, nops, [emit_inv], lens)
         return run_tlc("VecArith", cfg2, sc, workers=1, allow_violation=False, heap_gb=12)
 
-    results = in_threads([(check, c) for c in configs] + [(emit, c) for c in configs])
+    results = in_threads([(check, c) for c in configs] + [(emit, c) for c in configs], max_threads=10)
     out = {}
-    for (label, grid, systems, nops), res, res2 in zip(configs, results[:len(configs)], results[len(configs):]):
-        run.add_tlc(res, f"model check {label}: {MODEL_INVARIANTS}, Grid={grid} Systems={sorted(systems)} NOps={nops}")
+    for (label, grid, systems, nops, lens, _), res, res2 in zip(configs, results[:len(configs)], results[len(configs):]):
+        run.add_tlc(res, f"model check {label}: {MODEL_INVARIANTS}, Grid={grid} Systems={sorted(systems)} NOps={nops} Lens={sorted(lens)}")
         out[label] = res2.printed
         run.coverage.setdefault("cases_emitted", {})[label] = len(res2.printed)
     return out
@@ -452,7 +474,7 @@ def validate_trace(run, sc, records, label):
         path = sc / f"trace_{label}_{n}.json"
         path.write_text(json.dumps(chunk))
         cfg = write_cfg(sc / f"vat_{label}_{n}.cfg", init="TInit", next_="TNext",
-                        constants={"Grid": "<-Grid5", "Systems": {1}, "NOps": 3, "Scalars": f"<-{SCALARS}"},
+                        constants={"Grid": "<-Grid5", "Systems": {1}, "NOps": 3, "Scalars": f"<-{SCALARS}", "Lens": {0, 1, 2, 3}},
                         invariants=["Checked", "ModelLaws"], postcondition="AllConsumed")
         res = run_tlc("VecArithTrace", cfg, sc, workers=1, env={"TRACE_FILE": str(path)}, allow_violation=False, heap_gb=6)
         path.unlink()
@@ -489,9 +511,14 @@ def main() -> int:
     run = Run(PID, tier)
     _init()
     with Scratch() as sc:
-        emitted = model_and_emit(run, sc, [("pairs", t["pairs"], {1}, 2), ("systems", "Grid1", {1, 2, 3, 4}, 2),
-                                           ("triples", t["triples"], {1}, 3)])
+        full = (0, 1, 2, 3)
+        emitted = model_and_emit(run, sc, [("pairs", t["pairs"], {1}, 2, full, "Emit"), ("systems", "Grid1", {1, 2, 3, 4}, 2, full, "Emit"),
+                                           ("triples", t["triples"], {1}, 3, full, "Emit"),
+                                           # n-ary sums / differences over all system combinations, offending operand anywhere
+                                           ("nary3", "Grid1", {1, 2, 3, 4}, 3, full, "EmitNary"),
+                                           ("nary4", "Grid1", {1, 2, 3, 4}, 4, (0, 2), "EmitNary")])
         pairs, systems, triples = emitted["pairs"], emitted["systems"], emitted["triples"]
+        nary = emitted["nary3"] + emitted["nary4"]
 
         # generic symbols
         tables, sym_problems, sym_outside = symbolic_tables()
@@ -509,9 +536,18 @@ def main() -> int:
 
         records = []
         refusals = 0
-        for label, cases, fn in (("pairs", pairs, replay_pair), ("systems", systems, replay_pair), ("triples", triples, replay_triple)):
+        for label, cases, fn in (("pairs", pairs, replay_pair), ("systems", systems, replay_pair), ("triples", triples, replay_triple),
+                                 ("nary", nary, replay_nary)):
             for case, problems, outside, record in _pmap_pool(fn, cases):
                 run.traces += 1
+                if label == "nary":
+                    run.count(json.dumps([case["sys"], case["vs"]]))
+                    refusals += case["verdict"] == "refuse"
+                    for o in outside:
+                        run.outside(o)
+                    for clause, what in problems:
+                        report(run, _key(case, clause), what, {"kind": "nary", "model": case})
+                    continue
                 run.count(json.dumps([case.get("sa", 1), case.get("sb", 1), case["a"], case["b"], case.get("c", [])]))
                 if label == "systems" and "refuse" in case["verdict"].values():
                     refusals += 1
@@ -580,10 +616,10 @@ def replay_file(path: str) -> int:
         bad = [p for p in problems if p[0] == c["clause"]]
     else:
         case = c["model"]
-        fn = replay_pair if case["n"] == 2 else replay_triple
+        fn = replay_nary if case.get("nary") else replay_pair if case["n"] == 2 else replay_triple
         _, problems, _, record = fn(case)
         bad = list(problems)
-        if case["n"] == 2:
+        if case["n"] == 2 and not case.get("nary"):
             tables, _, _ = symbolic_tables()
             bad += symbolic_on_grid(tables, case)
         if record is not None:
